@@ -158,6 +158,8 @@ func scenario(v variant) *netctl.Scenario {
 		Faults:    faults,
 		Horizon:   4 * time.Minute,
 		MaxPoints: 400,
+		// the application pausing longer than the 10 s transaction timeout
+		Idle: []time.Duration{15 * time.Second},
 		Setup: func(x *netctl.Exec) {
 			opts := []kfake.Opt{kfake.SeedTopics(2, "t")}
 			if v.tv1 {
